@@ -172,12 +172,26 @@ def run_case(case):
     """executes the real merge; returns list of (property, what) violations"""
     rox = ro_xml(**case['ro'])
     mx, fn = msg(case['kind'], **case['args'])
-    return check_pair(rox, mx, case['kind'], case['args'], fn)
+    return check_pair(rox, mx, case['kind'], case['args'], fn, prefix=_prefix_xml(case))
 
 
-def check_pair(rox, mx, kind, a, fn):
+def _prefix_xml(case):
+    return [msg(k, mid=2 + i, **a)[0] for i, (k, a) in enumerate(case.get('prefix') or ())]
+
+
+def check_pair(rox, mx, kind, a, fn, prefix=None):
     viol = []
     ro = RunningOrder.from_string(rox)
+    if prefix:
+        # a history on ONE RunningOrder object: read the accessors (anything they remember must not go stale), apply the
+        # earlier messages, then check the last merge against the state the history reached
+        try:
+            _ = (ro.base_tag, ro.ro_id, ro.ro_slug, ro.message_id, [(s.id, s.duration, [i.id for i in (s.items or [])]) for s in ro.stories],
+                 ro.duration, ro.start_time, ro.end_time)
+        except Exception:
+            pass
+        for px in prefix:
+            ro += MosFile.from_string(px)
     try:
         m = MosFile.from_string(mx)
     except Exception as e:
@@ -247,6 +261,8 @@ def check_pair(rox, mx, kind, a, fn):
             if wcount != E['warn']:
                 viol.append(('C06', 'warnings %s, expected %s' % (wcount, E['warn'])))
     elif E['status'] in ('inert', 'same'):
+        if ('Move' in kind or 'Swap' in kind) and sorted(map(str, seq_after or [])) != sorted(map(str, seq_before)):
+            viol.append((P, 'a move / swap added or lost an element: %s -> %s' % (seq_before, seq_after)))
         if after['str'] != before['str']:
             viol.append(('C03', 'unresolvable/self reference but the running order changed (%s -> %s)' % (seq_before, seq_after)))
         if E['status'] == 'inert' and not raised:
@@ -328,6 +344,10 @@ def _mk_failure(prop, case, what):
     mx, fn = msg(case['kind'], **case['args'])
     f = {'property': prop, 'fn': fn, 'kind': case['kind'], 'args': case['args'], 'ro_spec': case['ro'], 'ro': rox, 'msg': mx,
          'what': what, 'api': 'ro = RunningOrder.from_string(ro); ro += MosFile.from_string(msg)'}
+    if case.get('prefix'):
+        f['prefix'] = _prefix_xml(case)
+        f['prefix_kinds'] = [k for k, _ in case['prefix']]
+        f['api'] = 'ro = RunningOrder.from_string(ro); read its accessors; for p in prefix: ro += MosFile.from_string(p); ro += MosFile.from_string(msg)'
     f['input_sha'] = hashlib.sha256((rox + '\n' + mx).encode()).hexdigest()[:16]
     return f
 
@@ -340,7 +360,8 @@ def search_merges(prop, tier, rng):
     per_kind = {}
     for case in merge_cases(tier, rng):
         n += 1
-        key = (case['kind'], json.dumps(case['args'], sort_keys=True), json.dumps(case['ro'], sort_keys=True))
+        key = (case['kind'], json.dumps(case['args'], sort_keys=True), json.dumps(case['ro'], sort_keys=True),
+               json.dumps(case.get('prefix'), sort_keys=True))
         distinct.add(hashlib.md5(repr(key).encode()).hexdigest())
         per_kind[case['kind']] = per_kind.get(case['kind'], 0) + 1
         try:
@@ -372,7 +393,7 @@ for _p in MERGE_PROPS:
 
 def replay_generic(prop, f):
     """True if the recorded input still violates the property"""
-    viol = check_pair(f['ro'], f['msg'], f['kind'], f['args'], f['fn'])
+    viol = check_pair(f['ro'], f['msg'], f['kind'], f['args'], f['fn'], prefix=f.get('prefix'))
     return any(p == prop for p, _ in viol)
 
 
